@@ -178,6 +178,30 @@ func checkConstUsers(r *Run, rule, val string, allowed []string) {
 			continue
 		}
 		n := short(fn.String())
+		// a helper introduced by a refactoring stands for its callers: the constant moved, its users did not
+		if top := enclosingTop(fn); !allow[n] && P.isNewHelper(top) {
+			var vetted func(f *ssa.Function, depth int) bool
+			vetted = func(f *ssa.Function, depth int) bool {
+				ins := P.CG().In[f]
+				if len(ins) == 0 || depth > 3 {
+					return false
+				}
+				for _, e := range ins {
+					c := enclosingTop(e.Caller)
+					if allow[short(c.String())] || allow[short(e.Caller.String())] {
+						continue
+					}
+					if !P.isNewHelper(c) || !vetted(c, depth+1) {
+						return false
+					}
+				}
+				return true
+			}
+			if vetted(top, 0) {
+				r.OK(rule, "const:"+val+"/user:"+n, P.InstrPos(hit), "new helper called only by vetted users")
+				continue
+			}
+		}
 		if allow[n] {
 			r.OK(rule, "const:"+val+"/user:"+n, P.InstrPos(hit), "vetted user")
 		} else {
